@@ -46,6 +46,9 @@ CHECKS = {
  "C13": ("exploration", "§9 C13",
    "Whole-system runs of composite (rolling and non-rolling, generateSelector on/off) and decorator controllers in which a share of the sync/finalize answers is the scenario's valid answer with one seeded grammar mutation: any status code, truncation at any byte, empty / non-JSON bodies, a flipped bit, null / scalar / incomplete entries in the children list, status missing / null / wrong type / hostile conditions, wrong types in a child's metadata, labels, annotations, ownerReferences, finalizers, kind, apiVersion, negative / huge / fractional / string numbers and flags, unknown fields, every JSON path replaced by every JSON type or deleted. Oracle: no worker panic (recovered panics are recorded through utilruntime.PanicHandlers, unrecovered ones kill the worker process and are attributed to the run), a rejection by construction (non-200, invalid JSON, wrong-typed labels) is reported as an error and followed by no child write in that sync, and after the hook returns to valid answers every live parent is synced again and the queues go quiet.",
    "deterministic simulation with corrupted-message fault injection (grammar + byte level)"),
+ "C19": ("exploration", "§9 C19",
+   "The real executors of pkg/hooks (plain / ETag with 3 s or 30 s cache TTL, strict / loose) run in the bubble against a scripted webhook; 1-3 client goroutines issue calls about 1-2 parents (shared cache key, different content) and the kernel interleaves, delays and ages their round trips (header enrichment, round trip and response adjustment of concurrent calls in every order). Scripted answers: 200 with / without ETag, 200+ETag with an unknown field, 304 / 412 with and without If-None-Match, 429 with numeric / date / absent / garbage Retry-After, other status codes, unknown and duplicate fields, truncated JSON, stall past the timeout, connection refused. Oracle per call: success iff 200 (or 304/412 answering a sent If-None-Match) with a decodable body that strict mode accepts; on 304/412 the decoded body is the one the script sent with exactly the ETag the request carried (or the call fails when a concurrent call replaced the cache entry meanwhile); 429 yields the advertised delay; everything else is an error; no call hangs or crashes the process.",
+   "deterministic simulation of concurrent calls against a scripted peer, per-call reference oracle"),
 }
 
 NA = {
